@@ -205,7 +205,7 @@ func ruleQuoteMarkerAndOneSpace(w *World, r *Report) {
 								notTab = true
 							}
 						}
-						if bo, ok := a.V.(*ssa.BinOp); ok && advMarker == false {
+						if bo, ok := a.V.(*ssa.BinOp); ok {
 							// index >= len(line) after the marker
 							if (bo.Op == token.GEQ && a.Truth) || (bo.Op == token.LSS && !a.Truth) {
 								if lenOf(bo.Y) != nil {
